@@ -63,6 +63,22 @@ Proof.
   rewrite (IH fs' I _ H2). apply aff_at_compat. rewrite H1. reflexivity.
 Qed.
 
+(* a factor tuple whose key is () is all zero *)
+Lemma strip_nil_zero : forall fs, strip_zeros fs = [] -> Forall (fun f => (f == 0)%Q) fs.
+Proof.
+  induction fs as [|f fs IH]; intros H; [constructor|]. cbn in H. destruct (strip_zeros fs) eqn:E; [|discriminate].
+  destruct (Qeq_bool f 0) eqn:Ef; [|discriminate]. constructor; [now apply Qeq_bool_iff|auto].
+Qed.
+Lemma aff_at_zero_fs : forall fs I b, Forall (fun f => (f == 0)%Q) fs -> (aff_at b fs I == b)%Q.
+Proof.
+  induction fs as [|f fs IH]; intros [|i I] b H; cbn; try reflexivity.
+  inversion H; subst. rewrite IH by auto. rewrite H2. ring.
+Qed.
+Lemma zero_key_aff : forall fs I b, mk_key fs = [] -> (aff_at b fs I == b)%Q.
+Proof.
+  intros fs I b H. apply aff_at_zero_fs. apply strip_nil_zero. unfold mk_key in H. now apply map_eq_nil in H.
+Qed.
+
 (* set_nth *)
 Lemma set_nth_ok {A} : forall ch (x : A) l, (ch < length l)%nat ->
   exists l', set_nth ch x l = Some l' /\ length l' = length l /\ nth_error l' ch = Some x /\
@@ -148,7 +164,7 @@ Section sim.
   Qed.
 
   Lemma ch_indexed : forall ch b fs st c1 st1 cmds pre post s K I,
-    tr_set_indexed ch b fs st = Ok (c1, st1) -> cmds = pre ++ c1 ++ post -> v_pc s = length pre ->
+    tr_set_indexed_nz ch b fs st = Ok (c1, st1) -> cmds = pre ++ c1 ++ post -> v_pc s = length pre ->
     (ch < length (v_cur s))%nat -> Pact st s -> Pplain st s -> Idep K st s I -> Knz K ->
     K (ch, mk_key fs) -> In (ch, fs) Fs -> length (t_iters st) = length I -> dyn_ok (t_iters st) I ->
     exists s1, reach cmds s s1 /\ v_pc s1 = (length pre + length c1)%nat /\ Pact st1 s1 /\ Pplain st1 s1 /\ Idep K st1 s1 I /\
@@ -179,7 +195,7 @@ Section sim.
         + assert (Hne : (c, k) <> (ch, mk_key fs)).
           { intros X. rewrite X in Ec. assert (Y : ck_eqb (ch, mk_key fs) (ch, mk_key fs) = true) by now apply ck_eqb_spec. congruence. }
           destruct (HD c k b0 olds HKc Hd) as (r & R2 & R3). exists r. rewrite Or by auto. split; auto. rewrite I1. exact R3. }
-    unfold tr_set_indexed in HT.
+    unfold tr_set_indexed_nz in HT.
     destruct (alookup ck_eqb (ch, mk_key fs) (t_deps st)) as [[b_old olds]|] eqn:Eprev.
     - destruct (required_increment_from (b, t_iters st) (b_old, olds) fs) as [inc|] eqn:Einc; cbn [bind] in HT; [|discriminate].
       destruct (req_inc_V _ _ _ _ _ _ I Einc HDyn) as (Hk & _ & _).
